@@ -265,6 +265,20 @@ def case_c02(rep, spec):
                     rep.add("autodiff_tie_resolved_by_finite_differences")
             except Exception:  # noqa: BLE001
                 pass
+        if not ok and p.get("kink") and "sides" in p:
+            # a one-ulp neighbour can itself tie (its image lands exactly on the clip bound) and finite differences are too
+            # coarse for a spline whose derivative varies by 1e5 per unit: extrapolate the autodiff log-det linearly from
+            # 2^10 and 2^11 ulps inside each side
+            try:
+                for sd in p["sides"]:
+                    d1 = np.asarray(sd, float) - np.asarray(x, float)
+                    ra = _slogdet(b, np.asarray(x, float) + d1 * 2**10, c, z["bisect"])[0]
+                    rb = _slogdet(b, np.asarray(x, float) + d1 * 2**11, c, z["bisect"])[0]
+                    if abs(ld - (2 * ra - rb)) <= tol + 0.05 * abs(ra - rb):
+                        ok = True
+                        rep.add("autodiff_tie_resolved_by_extrapolation")
+            except Exception:  # noqa: BLE001
+                pass
         if not ok:
             rep.violation({**key, "what": "forward log-det != log|det J|"},
                           f"{z['name']} at x = {np.asarray(x).ravel().tolist()}: reported log-det {ld}; log|det| of the autodiff "
